@@ -398,11 +398,14 @@ def logout_corpus():
            ('logout', 1), ('lookup', 'zed!z@z'), ('identify', 1, 'zed!z@z'), ('lookup', 'zed!z@z'), ('unidentify', 1), ('lookup', 'zed!z@z'), ('dump',)]
     yield [('reset', 10), ('register', 'alice', None), ('identify', 1, 'zed!z@z'), ('tick', 8), ('identify', 1, 'zed!z@z'), ('tick', 5),
            ('lookup', 'zed!z@z'), ('tick', 6), ('lookup', 'zed!z@z'), ('dump',)]
-    ops = [('reset', 0), ('register', 'pool', '*!*@*.pool.example'), ('register', 'alice', None)]
-    ops += [('lookup', 'n%d!u@h%d.pool.example' % (i, i)) for i in range(500)]
-    ops += [('identify', 2, 'alice!a@laptop.example'), ('lookup', 'alice!a@laptop.example')]
-    ops += [('lookup', 'm%d!u@h%d.pool.example' % (i, i)) for i in range(520)]
-    ops += [('unidentify', 2), ('lookup', 'alice!a@laptop.example'), ('dump',)]
+    # two logins of one account cached far apart, then enough other senders that a cache which gave up entries one by one
+    # would have dropped the older login's entry and the account's reverse entry but not the younger login's
+    ops = [('reset', 0), ('register', 'pool', '*!*@*.pool.example'), ('register', 'alice', None),
+           ('identify', 2, 'alice!a@laptop.example'), ('identify', 2, 'alice_m!mob@phone.example'), ('lookup', 'alice!a@laptop.example')]
+    ops += [('lookup', 'n%d!u@h%d.pool.example' % (i, i)) for i in range(400)]
+    ops += [('lookup', 'alice_m!mob@phone.example')]
+    ops += [('lookup', 'm%d!u@h%d.pool.example' % (i, i)) for i in range(590)]
+    ops += [('dump',), ('unidentify', 2), ('lookup', 'alice!a@laptop.example'), ('lookup', 'alice_m!mob@phone.example'), ('dump',)]
     yield ops
 
 def gen_overflow(r):
@@ -491,6 +494,12 @@ def run_history(impl, ops, kind, oracle=True):
         pre = None
         if k == 'lookup' and oracle:
             pre = impl.cachefree(op[1])
+        if k == 'logout' and impl.U.users.get(op[1]) is not None:
+            # which logins the account still holds physically (expired ones are dropped lazily; the model accepts
+            # only expired entries as gone): clearAuth invalidates the cache for exactly these
+            raw = [(int(w), m) for (w, m) in impl.U.users[op[1]].auth]
+            lines.append('pruned\t%d\t%s\t%s' % (op[1], ','.join(str(w) for (w, m) in raw) or '-', wire.enc_list([m for (w, m) in raw])))
+            outs.append('ok')
         out = impl.run(op)
         outs.append(out); lines.append(wire_line(op))
         trace.append('%3d %-70s -> %s' % (idx, repr(op)[:70], out.replace('\t', ' ')))
